@@ -82,7 +82,9 @@ def check_decoder_rejections(prog, rep, rule):
     cases = [('mixed content, capacity delegations', {'pool_id', 'capacities', 'labels'}, 'CAPACITY'),
              ('mixed content, label delegations', {'pool_id', 'capacities', 'labels'}, 'LABEL'),
              ('capacity details on a pool reference', {'pool', 'capacities'}, 'CAPACITY'),
-             ('label details on a pool reference', {'pool', 'labels'}, 'LABEL')]
+             ('label details on a pool reference', {'pool', 'labels'}, 'LABEL'),
+             ('label details on a pool reference, capacity delegations', {'pool', 'labels'}, 'CAPACITY'),
+             ('capacity details on a pool reference, label delegations', {'pool', 'capacities'}, 'LABEL')]
     for what, present, atype in cases:
         bind = {'atype': prog.const_eval(ast.parse(f'DelegationType.{atype}', mode='eval').body, mod, delegs)}
         rejected = False
